@@ -90,11 +90,36 @@ class Driver(GenericAdapter):
             return (p for p in ps)
         if form == "dict":
             return dict(ps)
-        if form == "omd":
-            o = self.cls()
+        if form in ("omd", "omd-other-class"):
+            # an OMD argument of the target's class, or of the other one of the two (a subclass instance in a plain OMD
+            # and the other way round)
+            cls_ = self.cls
+            if form == "omd-other-class":
+                from boltons import dictutils, urlutils
+                cls_ = dictutils.OrderedMultiDict if self.cls is not dictutils.OrderedMultiDict else urlutils.QueryParamDict
+            o = cls_()
             for k, v in ps:
                 o.add(k, v)
             return o
+        if form == "lists":
+            return [[k, v] for k, v in ps]             # pairs need not be tuples
+        if form == "ordereddict":
+            import collections
+            return collections.OrderedDict(ps)
+        if form == "mappingproxy":
+            import types
+            return types.MappingProxyType(dict(ps))
+        if form == "keysgetitem":
+            class Src:                    # the minimal mapping protocol: keys() and []
+                def __init__(self, d):
+                    self.d = d
+
+                def keys(self):
+                    return list(self.d)
+
+                def __getitem__(self, k):
+                    return self.d[k]
+            return Src(dict(ps))
         raise core.MachineryError("form " + str(form))
 
     def variants(self, op):
@@ -103,11 +128,13 @@ class Driver(GenericAdapter):
         if n == "addlist":
             return ["list", "tuple", "iter"]
         if n in ("update", "update_extend", "ior", "ctor"):
-            v = ["pairs", "iter", "omd"]
+            v = ["pairs", "iter", "omd"] + (["lists", "omd-other-class"] if n in ("update", "update_extend") or THOROUGH else [])
             if n == "update":
                 v.append("tuple")
             if distinct:
                 v.append("dict")
+                if n == "update" or THOROUGH:
+                    v += ["ordereddict", "mappingproxy"] + (["keysgetitem"] if n in ("update", "update_extend") else [])
                 if self.strkeys and n in ("update", "ctor", "update_extend"):
                     v.append("kw")
                     if len(op["arg"]) >= 2:
@@ -584,7 +611,12 @@ def subjects():
     return out
 
 
+THOROUGH = False
+
+
 def main(tier, seed):
+    global THOROUGH
+    THOROUGH = tier == "thorough"
     t0 = time.time()
     stats, verdict = Stats(), Verdict(PROP, tier, seed)
     thorough = tier == "thorough"
